@@ -163,6 +163,9 @@ func rrGen(r *hx.Rand, i int) interface{} {
 	if r.Chance(1, 5) {
 		in.Picks = 100 + r.Intn(400)
 	}
+	if weighted && r.Chance(1, 100) { // weighted rings have about 10⁴ slots: go around at least once sometimes
+		in.Picks = 10000 + r.Intn(12000)
+	}
 	return in
 }
 
@@ -183,7 +186,7 @@ func rrRun(raw json.RawMessage) (interface{}, error) {
 	if err := json.Unmarshal(raw, &in); err != nil {
 		return nil, err
 	}
-	if len(in.Weights) < 1 || len(in.Weights) > 8 || in.Picks < 0 || in.Picks > 5000 || in.Start > 1<<62 {
+	if len(in.Weights) < 1 || len(in.Weights) > 8 || in.Picks < 0 || in.Picks > 30000 || in.Start > 1<<62 {
 		return nil, errors.New("out of range")
 	}
 	sum := 0
